@@ -123,3 +123,25 @@ Theorem C19_commit_dispatch : forall c o tr r n anyq,
   else exists rest, stages tr = SBranchesOfCommit :: SGetPRs :: rest /\ ~ In SMergeQueuesNested rest.
 Proof. exact commit_dispatch. Qed.
 Print Assumptions C19_commit_dispatch.
+
+(* ---- C04 / C06 end to end: the skeleton composed with the gate models ------------------------------------------ *)
+Require Import BertE.Proofs.EndToEndProofs.
+Require BertE.Model.Approvals BertE.Spec.C04Spec BertE.Model.BuildGate BertE.Spec.C06Spec.
+
+(* When the two gate stages answer what Model/Approvals.v and Model/BuildGate.v compute from the gate inputs (every
+   other step staying arbitrary), a pull-request evaluation that queues or merges implies the STATEMENT of C04 on
+   those inputs: every review requirement of the specification holds. *)
+Theorem C04_end_to_end : forall c o pos tr r i bypass nokey ss,
+  gated o i bypass nokey ss ->
+  exec o pos (pr_inner c) = (tr, r) -> reaches lands tr = true ->
+  C04Spec.spec_pass i.
+Proof. exact landing_implies_c04_spec. Qed.
+Print Assumptions C04_end_to_end.
+
+(* ... and the statement of C06: every integration tip SUCCESSFUL, unless bypassed or no build key. *)
+Theorem C06_end_to_end : forall c o pos tr r i bypass nokey ss,
+  gated o i bypass nokey ss -> ss <> [] -> forallb C06Spec.is_known ss = true ->
+  exec o pos (pr_inner c) = (tr, r) -> reaches lands tr = true ->
+  bypass = true \/ nokey = true \/ forall s, In s ss -> s = BuildGate.SUCCESSFUL.
+Proof. exact landing_implies_c06_spec. Qed.
+Print Assumptions C06_end_to_end.
